@@ -17,13 +17,13 @@ type ev = map[string]any
 
 // passphrase families: [0] is in NFC, [1] a byte-different spelling with the same NFC, [2] another passphrase
 var passFamilies = [][3]string{
-	{"p\u00e4ssw\u00f6rd", "pa\u0308sswo\u0308rd", "passwoerd"},                                     // decomposed accents
-	{"\u00c5ngstr\u00f6m", "\u212bngstro\u0308m", "Angstrom"},                                        // ANGSTROM SIGN
-	{"\ud55c\uae00 pass", "\u1112\u1161\u11ab\u1100\u1173\u11af pass", "\ud55c pass"},                // Hangul jamo
-	{"q\u0323\u0307x", "q\u0307\u0323x", "q\u0307x"},                                                // stacked combining marks, reordered
-	{"\u03a9mega\u00e9", "\u2126megae\u0301", "Omegae"},                                             // OHM SIGN
-	{"\u1e69tack", "s\u0307\u0323tack", "\u1e63tack"},                                               // two marks composing in two steps
-	{"\u00e9", "e\u0301", "e"},                                                                     // shortest
+	{"p\u00e4ssw\u00f6rd", "pa\u0308sswo\u0308rd", "passwoerd"},                       // decomposed accents
+	{"\u00c5ngstr\u00f6m", "\u212bngstro\u0308m", "Angstrom"},                         // ANGSTROM SIGN
+	{"\ud55c\uae00 pass", "\u1112\u1161\u11ab\u1100\u1173\u11af pass", "\ud55c pass"}, // Hangul jamo
+	{"q\u0323\u0307x", "q\u0307\u0323x", "q\u0307x"},                                  // stacked combining marks, reordered
+	{"\u03a9mega\u00e9", "\u2126megae\u0301", "Omegae"},                               // OHM SIGN
+	{"\u1e69tack", "s\u0307\u0323tack", "\u1e63tack"},                                 // two marks composing in two steps
+	{"\u00e9", "e\u0301", "e"},                                                        // shortest
 }
 
 var plainPasses = []string{"", "city of zion", "MyL33tP@33w0rd", "我的密码", " ", "pass\x00word", "\U0001F511 key"}
@@ -36,19 +36,19 @@ type pooled struct {
 }
 
 type rseq struct {
-	r      *rand.Rand
-	sp     keys.ScryptParams
-	events []ev
-	privs  []*pooled
-	pubs   []*pooled
-	sigs   []*pooled
-	pbytes []*pooled // serialized public keys (good and mangled)
-	kbytes []*pooled
-	wifs   []*pooled
-	neps   []*pooled
-	msgs   [][]byte
-	passes []string
-	signs  []signReq
+	r       *rand.Rand
+	sp      keys.ScryptParams
+	events  []ev
+	privs   []*pooled
+	pubs    []*pooled
+	sigs    []*pooled
+	pbytes  []*pooled // serialized public keys (good and mangled)
+	kbytes  []*pooled
+	wifs    []*pooled
+	neps    []*pooled
+	msgs    [][]byte
+	passes  []string
+	signs   []signReq
 	seenAlt map[string]bool
 }
 
@@ -356,10 +356,10 @@ func addrEvent(p *keys.PublicKey) (ev, string) {
 // ------------------------------------------------------------------ sweeps: EVERY single change
 
 type sweep struct {
-	Op, Src               string
-	Tried, Same, Panics   int
-	Refused, Other        int
-	Example               string
+	Op, Src             string
+	Tried, Same, Panics int
+	Refused, Other      int
+	Example             string
 }
 
 func (w *sweep) event() ev {
